@@ -19,6 +19,7 @@ package stdlib
 //@   ensures dec: cnt(ctx) == old(cnt(ctx)) - 1
 
 //@ func (*context).RunCode(ctx, code, globals, locals, closure) (r, err)
+//@   traced 45
 //@   requires cntok: cnt(ctx) >= 0
 //@   protects ctx, wgcnt[addr(ctx.running)]
 //@   modifies *
@@ -32,6 +33,8 @@ package stdlib
 //@   modifies *
 //@   ensures bal: cnt(ctx) == old(cnt(ctx))
 //@   ensures rejected: old(ctx.closed) ==> err != nil
+//@   ensures regfirst: opat[45] > 0 ==> 0 < opat[44] && opat[44] < opat[45]
+//@   ensures runonce: opat[45] == 0 || opat[45] == opat[0]
 
 //@ func (*context).ResolveAndCompile(ctx, pathname, opts) (out, err)
 //@   requires cntok: cnt(ctx) >= 0
